@@ -190,6 +190,8 @@ def monitor(case, out):
                 if t in (b'insert_bytes', b'insert_file', b'prepare_add') and op[2] > cap:
                     if res != b'too_large' or prev[5] != index or prev[6] != files:
                         vs.append('op %d %s: oversized entry not refused cleanly' % (i, op))
+                if t == b'remove' and k in keys:
+                    vs.append('op %d remove: the key is still indexed after remove() (result %s): a ghost entry keeps being counted and evicts live entries' % (i, res.decode()))
                 if t in (b'insert_bytes', b'insert_file', b'insert_with') and res == b'ok' and (not keys or keys[-1] != k):
                     vs.append('op %d %s: inserted key not most recent' % (i, op))
         prev = obs
